@@ -55,13 +55,17 @@ def c14_histories(r, seed, tier, model_ok):
         for trial in range(n):
             mode = R.choice(list(MODES)); init = R.choice([None, b"", bytes(R.randrange(256) for _ in range(R.randrange(1, 40)))])
             if init is None and mode in ("rb", "r+b"): init = bytes(R.randrange(256) for _ in range(R.randrange(0, 6)))
+            big = trial % 16 == 7          # files larger than one / two I/O buffers (4096, 8192): read-all and large counts must not stop at a buffer boundary
+            if big: init = bytes(R.randrange(256) for _ in range(R.choice([4095, 4096, 4097, 5000, 8191, 8193, 12000, 20000])))
             fn = f"f{trial}.bin"
             if init is not None: open(fn, "wb").write(init)
             can_r = mode in ("rb", "r+b", "w+b", "a+b"); can_w = mode != "rb"
             ops = []
-            for _ in range(R.randrange(1, 31)):
-                k = R.choice(["read", "write", "write", "tell", "seek", "seekset", "seekcur", "trunc", "truncn"])
-                if k == "read" and can_r: ops.append(("read", R.choice([-1, 0, 1, 3, 100])))
+            for _ in range(R.randrange(1, 31) if not big else R.randrange(1, 7)):
+                k = R.choice(["read", "write", "write", "tell", "seek", "seekset", "seekcur", "trunc", "truncn"]) if not big else R.choice(["read", "read", "read", "tell", "seekset", "write", "seekcur"])
+                if k == "read" and can_r: ops.append(("read", R.choice([-1, 0, 1, 3, 100]) if not big else R.choice([-1, -1, 100, 4096, 4097, 9000, 30000])))
+                elif big and k == "seekset": ops.append((k, R.choice([0, 1, 4000, 4096, 5000])))
+                elif big and k == "write" and can_w: ops.append(("write", bytes(R.randrange(256) for _ in range(R.choice([3, 5000])))))
                 elif k == "write" and can_w: ops.append(("write", bytes(R.randrange(256) for _ in range(R.randrange(0, 6)))))
                 elif k == "tell": ops.append(("tell",))
                 elif k in ("seek", "seekset"): ops.append((k, R.randrange(0, 50)))
@@ -310,6 +314,16 @@ def c20_isolation(r, seed, tier, model_ok):
     OPS = ["ㅈ", "ㄴㄴ", "ㄴㅁ", "ㅅ", "ㄷ", "ㄱ", "ㄴ", "ㅁㅈ", "ㅂㅈ", "ㅅㄹ", "ㅁㄷ", "ㅅㅂ", "ㅈㄷ", "ㅈㄹ", "ㄱㄹ", "ㅅㅅ", "ㅈㅅ", "ㅂㄹ", "ㄱㄴ", "(ㅂ ㅂㄷ ㄱ ㅂㅎㄹ)", "(ㅂ ㅂㄷ ㄷ ㅂㅎㄹ)", "(ㅂ ㅂㄷ ㅂ ㅂㅎㄹ)", "(ㅂ ㅅ ㅂㄹ ㄱ ㅂㅎㅁ)", "(ㅂ ㅅ ㄱㅅ ㅂㅎㄹ)", "(ㅂ ㅅ ㅈㄱ ㅂㅎㄹ)"]
     for _ in range(N(tier, 150, 1500)):
         k = R.randrange(1, 4); args = R.sample(ATOMS, k); progs.append(dict(text=" ".join(args) + " " + R.choice(OPS) + " ㅎ" + E(k)))
+    # kind twins: the same call with numerically EQUAL arguments of different kinds (0 / 0.0 / False, 1 / 1.0 / True, 2 / 2.0): a memo keyed by the
+    # language's (or the host's) equality would hand one twin the other's answer - in particular an error turned into a value or back
+    TW = [["ㄱ", "(ㄱ ㅅㅅㅎㄴ)", "(ㄱㅈㅎㄱ)"], ["ㄴ", "(ㄴ ㅅㅅㅎㄴ)", "(ㅈㅈㅎㄱ)"], ["ㄷ", "(ㄷ ㅅㅅㅎㄴ)"], ["ㅁ", "(ㅁ ㅅㅅㅎㄴ)"]]
+    TOPS = ["ㅂ ㅂ ㅂㅎㄷ", "ㅂ ㅅ ㅂㄹ ㄱ ㅂㅎㅁ", "ㅂ ㅂㄷ ㄱ ㅂㅎㄹ", "ㅂ ㅂㄷ ㅈ ㅂㅎㄹ", "ㅂ ㅅ ㄱㅅ ㅂㅎㄹ", "ㅅ", "ㄴㄴ", "ㄴㅁ", "ㅁㄹ", "ㅅㅈ", "ㅈ", "ㅂ ㅂㅅ ㅂㅎㄷ" if False else "ㅂㅅ"]
+    for _ in range(N(tier, 40, 400)):
+        f = R.choice(TOPS); ar = R.randrange(1, 4); cols = [R.choice(TW) for _ in range(ar)]
+        for _ in range(3):
+            args = [R.choice(c) for c in cols]; call_ = " ".join(args) + f" ({f}) ㅎ{E(ar)}" if " " in f else " ".join(args) + f" {f} ㅎ{E(ar)}"
+            progs.append(dict(text=call_))
+            if f == "ㅂ ㅂ ㅂㅎㄷ": progs.append(dict(text=f"ㄷㄴ ({call_}) ㅎㄴ")); progs.append(dict(text=f"(ㄷ ㅁㅈㅎㄴ) ({call_}) ㅎㄴ"))       # and the codec put to use
     progs += [dict(text="ㄴ ㄷ ㄷ\nㅎㄷ"), dict(text="ㄴ ㄷ ㄱ\nㅎㄷ"), dict(text="ㄴ ㄷ ㄴ\nㅎㄷ"), dict(text="ㄴ ㄷ (ㄱㅇㄱ ㅎ)\nㅎㄷ")]
     uniq = list({(p["text"], p.get("stdin", "")): p for p in progs}.values())
     try:
